@@ -1064,6 +1064,9 @@ REGRESSIONS = [
     # graphics mode, 40 columns
     {'video': 'ega', 'ops': [{'op': 'screen', 'm': 7}, _p('q' * 45), {'op': 'key', 'on': True},
                              {'op': 'cls', 'arg': None}, {'op': 'width', 'w': 80}, _p('r' * 81)]},
+    # fixed 670b1bda (found by the thorough tier): LOCATE on row 25, VIEW PRINT 24 TO 24, then a
+    # carriage return stepped onto row 25 and wrote outside the window
+    {'video': 'vga', 'ops': [{'op': 'print', 'items': [{'lk': 'left', 'lv': 2, 'seed': 71, 'nl': [[150, 13], [243, 10]]}, {'lk': 'abs', 'lv': 12, 'seed': 21}, {'raw': '\x1d'}], 'nl': False, 'q': []}, {'op': 'print', 'items': [{'lk': 'fit', 'lv': 0, 'seed': 44}, {'lk': 'long', 'lv': 32, 'seed': 7}], 'nl': False, 'q': [[4, 54], [0, 15]]}, {'op': 'locate', 'rk': 'edge', 'rv': 32, 'ck': 'abs', 'cv': 61, 'q': []}, {'op': 'view', 'a': 23, 'b': 0, 'rel': True}, {'op': 'print', 'items': [{'raw': '\rX\x07\x00\x00'}, {'lk': 'abs', 'lv': 159, 'seed': 3}, {'lk': 'left', 'lv': 4, 'seed': 27, 'nl': [[100, 10]]}], 'nl': True, 'q': []}]},
 ]
 
 KILLS = [
